@@ -47,17 +47,19 @@ contract(
                   "and usage(MyRS(self), s) == old(usage(MyRS(self), s))))"),
         # C03: after trimming, the task's portion of the final slot is exactly what the missing effort needs
         # (when the booking could cover it: need <= what was booked)
+        # (to within one microsecond of booked time: a smaller remainder is not released)
         ("exact-effort", "implies(old(UniqueEntry(self)) and required_effort - effort_before_slot <= old(MyEntry(self)) / 3600 * Eff(some(self._lastBookedResource), self.scenarioIdx), "
-                         "MyEntry(self) / 3600 * Eff(some(self._lastBookedResource), self.scenarioIdx) == required_effort - effort_before_slot)"),
+                         "MyEntry(self) / 3600 * Eff(some(self._lastBookedResource), self.scenarioIdx) >= required_effort - effort_before_slot and "
+                         "(MyEntry(self) - 1/1000000) / 3600 * Eff(some(self._lastBookedResource), self.scenarioIdx) <= required_effort - effort_before_slot)"),
         ("never-more", "implies(old(UniqueEntry(self)), MyEntry(self) <= old(MyEntry(self)))"),
         # C06 (forward): the reported end lies after everything that was in the slot before this task plus the
         # task's own portion (to within the one-second rounding)
         ("end-after-work", "implies(forward and old(UniqueEntry(self)), secs(result[0]) - secs(PT(self.project, some(self.currentSlotIdx))) >= "
-                           "old(PG(self.project) - MyEntry(self)) + MyEntry(self) - 1/2)"),
+                           "old(PG(self.project) - MyEntry(self)) + MyEntry(self) - 1/2 - 1/1000000)"),
         ("end-in-slot", "implies(forward, secs(result[0]) <= secs(PT(self.project, some(self.currentSlotIdx))) + PG(self.project) + 1/2)"),
         # C06 (backward): the reported start lies before the task's portion, which ends where later work begins
         ("start-before-work", "implies(not forward and old(UniqueEntry(self)), secs(PT(self.project, some(self.currentSlotIdx))) + PG(self.project) - secs(result[0]) >= "
-                              "old(PG(self.project) - MyEntry(self)) + MyEntry(self) - 1/2)"),
+                              "old(PG(self.project) - MyEntry(self)) + MyEntry(self) - 1/2 - 1/1000000)"),
     ],
     calls={"self.project.idxToDate": ("spec", ["self", "i"], "ite(self.attributes['start'] is None, None, PT(self, i))")},
     static={},
@@ -375,14 +377,15 @@ contract(
               ("not-contiguous", "attr(self.property, 'flags', self.scenarioIdx) is None"),
               ("eff-positive", "forall(r, 'Ref:Resource', Eff(r, self.scenarioIdx) > 0)"),
               # the slot walk calls this only while the task still lacks effort
-              ("unfinished", "implies(IsEffortTask(self), self.doneEffort < EffortOf(self))")],
+              ("unfinished", "implies(IsEffortTask(self), self.doneEffort < EffortOf(self) - 1/1000000000)")],
     assumes=anc_axioms_all("Resource") + L.anc_axioms("self.property"),
     ensures=[
         ("world", "World(self)"),
         ("cursor-kept", "self.currentSlotIdx == old(self.currentSlotIdx) and self.slotStartOffset == old(self.slotStartOffset)"),
         ("effort-monotone", "self.doneEffort >= old(self.doneEffort)"),
         # C03: an effort task stops exactly when the credited effort reaches the requested effort
-        ("stop", "implies(IsEffortTask(self), iff(not result, self.doneEffort >= some(attr(self.property, 'effort', self.scenarioIdx))))"),
+        # (to within a nanohour: the credited effort is a floating-point sum)
+        ("stop", "implies(IsEffortTask(self), iff(not result, self.doneEffort >= some(attr(self.property, 'effort', self.scenarioIdx)) - 1/1000000000))"),
         ("end-on-stop", "implies(IsEffortTask(self) and not result and some(attr(self.property, 'forward', self.scenarioIdx)), "
                         "TEnd(self.property, self.scenarioIdx) is not None)"),
         ("start-on-stop-backward", "implies(IsEffortTask(self) and not result and not some(attr(self.property, 'forward', self.scenarioIdx)), "
